@@ -189,10 +189,14 @@ def geometry_matches(p, polys, size):
         # straight shapes have no chord error: their vertices must be where the matrices put them
         tol = 1e-9 * size
     q1 = [z for pl in got for z in (pl[::max(1, len(pl) // 50)] + [pl[-1]])]
+    q1 += [(s_.start + s_.end) / 2 for s_ in p if isinstance(s_, _Line)]
     d1 = dist_points_polylines(q1, polys)
     if d1.max() > tol:
         return 'returned path leaves the reference shape at %r' % (q1[int(d1.argmax())],)
     q2 = [z for pl in polys for z in (list(pl[::max(1, len(pl) // 60)]) + [pl[-1]])]
+    # (a reference polyline with few vertices is a straight-sided shape: its SIDES must be there too, not only its corners)
+    q2 += [(a_ + b_) / 2 for pl in polys if len(pl) < 60 for a_, b_ in zip(pl, pl[1:])]
+
     d2 = dist_points_polylines(q2, got)
     if d2.max() > tol:
         return 'reference point %r is not on the returned path' % (q2[int(d2.argmax())],)
